@@ -45,6 +45,7 @@ func valueConfig(r *vl.Rng, i int) idlgen.Config {
 }
 
 type unitData struct {
+	defect string // the unit replays a known defect: oracle failures are reported under this stable key
 	u      *batch.UnitInfo
 	prog   *idlgen.Program
 	fr     *front
@@ -64,7 +65,7 @@ type opLine struct {
 	nontrivial bool
 }
 
-func run(repo, dir string, seed uint64, tier string, nprog int, keep bool, replay string) int {
+func run(repo, dir string, seed uint64, tier string, nprog, nwild int, keep bool, replay string) int {
 	t0 := time.Now()
 	if abs, err := filepath.Abs(dir); err == nil {
 		dir = abs
@@ -81,7 +82,9 @@ func run(repo, dir string, seed uint64, tier string, nprog int, keep bool, repla
 	out := vl.NewOut(dir)
 	defer out.Close()
 	r := vl.NewRng(vl.NewRng(seed).U64())
-	if nprog == 0 {
+	if nprog < 0 {
+		nprog = 0
+	} else if nprog == 0 {
 		nprog = 8
 		if tier == "thorough" {
 			nprog = 40
@@ -103,6 +106,18 @@ func run(repo, dir string, seed uint64, tier string, nprog int, keep bool, repla
 			units = append(units, batch.Unit{Prog: p, Recurse: true, Options: o, Tag: fmt.Sprintf("prog%d", i), NoSynth: true})
 		}
 	}
+	defectOf := map[int]string{}
+	for _, cp := range catalogue() {
+		sets := [][]string{{}}
+		if cp.defect == "" {
+			sets = append(sets, []string{"enum_as_int_32", "naming_style=golint", "nil_safe"})
+		}
+		for _, o := range sets {
+			defectOf[len(units)] = cp.defect
+			units = append(units, batch.Unit{Prog: cp.prog, Recurse: true, Options: o, Tag: "cat:" + cp.name, NoSynth: true})
+		}
+		out.Count("catalogue." + cp.name)
+	}
 	b, err := batch.Build(work, repo, units, nil)
 	if b != nil {
 		fmt.Println(b.Summary())
@@ -123,7 +138,7 @@ func run(repo, dir string, seed uint64, tier string, nprog int, keep bool, repla
 			fmt.Printf("UNIT %s unusable (C01's business): exit=%d %s %s\n", u.Key, u.Exit, firstLines(u.Stderr, 2), strings.Join(first(u.BuildErrors, 2), " | "))
 			continue
 		}
-		ud := &unitData{u: u, prog: units[i].Prog}
+		ud := &unitData{u: u, prog: units[i].Prog, defect: defectOf[i]}
 		ud.fr = runFront(ud.prog)
 		if ud.fr.err != nil {
 			// thriftgo accepted the program but the in-process front end did not: machinery problem
@@ -158,6 +173,27 @@ func run(repo, dir string, seed uint64, tier string, nprog int, keep bool, repla
 	var lines []*opLine
 	for _, ud := range uds {
 		lines = append(lines, valueOps(r, ud, out)...)
+		lines = append(lines, textOps(ud)...)
+	}
+	// ---- thriftgo-only suites: reject + text on programs that need not compile
+	if nwild < 0 {
+		nwild = 40
+		if tier == "thorough" {
+			nwild = 400
+		}
+	}
+	wildOpts := [][]string{{}, {"value_type_in_container"}, {"naming_style=golint"}, {"enum_as_int_32", "use_type_alias=false"}}
+	for i := 0; i < nwild; i++ {
+		w := &wildUnit{key: fmt.Sprintf("w%d", i), prog: idlgen.Generate(r, wildConfig(r)), opts: wildOpts[r.Intn(len(wildOpts))]}
+		if r.Chance(55) {
+			w.mutated = mutate(r, w.prog)
+		}
+		ls, err := wildOps(b.Thriftgo, work, w, out)
+		if err != nil {
+			fmt.Println("ERROR:", err)
+			return 2
+		}
+		lines = append(lines, ls...)
 	}
 	var send []string
 	for _, l := range lines {
@@ -190,7 +226,11 @@ func run(repo, dir string, seed uint64, tier string, nprog int, keep bool, repla
 			if fails <= 10 {
 				fmt.Printf("ORACLE FAIL [%s %s] %s\n  op: %.300s\n  got: %.300s\n", l.ud.u.Key, strings.Join(l.ud.u.Options, ","), msg, l.text, ans)
 			}
-			out.Fail(vl.OracleFail{Key: l.what + ":" + l.ud.u.Tag + ":" + strings.Join(l.ud.u.Options, ",") + ":" + l.text, What: l.what + ": " + msg,
+			key := l.what + ":" + l.ud.u.Tag + ":" + strings.Join(l.ud.u.Options, ",") + ":" + l.text
+			if l.ud.defect != "" {
+				key = "defect:" + l.ud.defect
+			}
+			out.Fail(vl.OracleFail{Key: key, What: l.what + ": " + msg,
 				Input: unitInput(l.ud, l.text), Expected: msg, Observed: ans})
 		} else {
 			out.Count("oracle.ok." + l.what)
